@@ -195,6 +195,66 @@ theorem codec_crash_pinned_counterexample :
     hasCrash (run cfgPinned [stream [cmdPing], [36, 45, 50, 13, 10]]) = true ∧
     replyCount (run cfgPinned [stream [cmdPing], [36, 45, 50, 13, 10]]) = 1 := by decide
 
+/-! ## 2b. the look-alike class, exactly (the CAUSE of the known findings `C04:malformed-*:*-lookalike*`) -/
+
+/-- with HEADER_LEN = 14 the GET recognisers (`collect_get_keys`, `try_fast_get`) accept EXACTLY the
+    byte strings of the class `GetLookalike`: 13-byte header, one arbitrary byte, `$`, a usize
+    without CR, CR, one arbitrary byte, the key, two arbitrary bytes, anything -/
+theorem lookalike_accepted_iff (buf key : Bytes) (total : Nat) :
+    recogGet 14 true buf = .get key total ↔ GetLookalike buf key total :=
+  ⟨getLookalike_of_accepted buf key total, getLookalike_accepted buf key total⟩
+
+/-- no well-formed RESP command ever takes the fast path or is taken by a collector: for every
+    buffer that is a prefix of a stream of well-formed command frames the fast path declines or
+    waits, and both collectors return the buffer untouched (HEADER_LEN = 14 makes them dead code
+    for well-formed input — a PERFORMANCE defect, the replies are those of the generic path) -/
+theorem fast_path_dead_for_wellformed (ck inTx : Bool) (fuel : Nat) (buf rest : Bytes) (cmds : List Cmd)
+    (h : buf ++ rest = stream cmds) :
+    (fastPath 14 ck inTx buf = .notFast ∨ fastPath 14 ck inTx buf = .needMore) ∧
+    collectGet 14 ck fuel buf = some ([], buf) ∧ collectSet 14 ck fuel buf = some ([], buf) := by
+  refine ⟨?_, collectGet_dead ck fuel buf rest cmds h, collectSet_dead ck fuel buf rest cmds h⟩
+  cases cmds with
+  | nil =>
+    simp [stream] at h
+    rw [h.1]
+    left
+    unfold fastPath
+    cases inTx <;> simp
+  | cons c cs =>
+    rw [stream_cons] at h
+    cases fastPath_dead ck inTx buf rest (stream cs) c h with
+    | inl hh => exact Or.inl hh
+    | inr hh => exact Or.inr hh.1
+
+/-- consequently no member of the look-alike class is (a prefix of) a well-formed pipeline: the
+    known findings concern malformed input only -/
+theorem lookalike_is_malformed (buf key : Bytes) (total : Nat) (hl : GetLookalike buf key total)
+    (rest : Bytes) (cmds : List Cmd) : buf ++ rest ≠ stream cmds := by
+  intro h
+  have hacc := (lookalike_accepted_iff buf key total).2 hl
+  cases cmds with
+  | nil =>
+    simp [stream] at h
+    rw [h.1, recogGet_nil] at hacc
+    cases hacc
+  | cons c cs =>
+    rw [stream_cons] at h
+    cases recogGet_dead true buf rest (stream cs) c h with
+    | inl hh => rw [hh] at hacc; cases hacc
+    | inr hh => rw [hh.1] at hacc; cases hacc
+
+example : GetLookalike getLookalike [107] 21 :=
+  ⟨getHdrU, 88, [49], 10, [13, 10], Or.inl rfl, rfl, by decide, by decide, by decide, rfl, by decide⟩
+
+/-- `PING`, then `*2\r\n$3\r\nGET\r\nX$4\r\nab` — a proper PREFIX of a look-alike: the RESP grammar
+    already rejects it (byte X where a type byte belongs), but `try_fast_get` answers "need more
+    data" and the error reply is withheld (known finding `C04:malformed-stall:get-lookalike-prefix`) -/
+theorem lookalike_prefix_stalls_counterexample :
+    replyCount (run cfg14 [stream [cmdPing], getLookalike.take 15 ++ [52, 13, 10, 97, 98]]) = 1 ∧
+    hasCrash (run cfg14 [stream [cmdPing], getLookalike.take 15 ++ [52, 13, 10, 97, 98]]) = false ∧
+    (parse1 cfg14.env (getLookalike.take 15 ++ [52, 13, 10, 97, 98])).out.errKind = some .unknownType := by
+  decide
+
 /-! ## 3. connections do not leak into each other through the shared buffer pool -/
 
 /-- full statement: whatever the earlier (or concurrent) connections of the server did — EOF in the
@@ -241,6 +301,11 @@ theorem pooled_one_reply_per_command (cfg : Config) (h14 : cfg.headerLen = 14) (
   rw [hspec] at hs1
   cases hs1
   rw [ho, solo, runConn_eq_run, segmentation_independent cfg h14 hc hd cmds segs hseg hs hmax hok]
+  congr 1
+  unfold execAll
+  induction cmds with
+  | nil => rfl
+  | cons c cs ih => simp [Action.isDropped]
 
 /-- `*2\r\n$3\r\nGET\r\n$5\r\nab` — a client that disconnects in the middle of a frame -/
 def midFrame : Bytes := [42, 50, 13, 10, 36, 51, 13, 10, 71, 69, 84, 13, 10, 36, 53, 13, 10, 97, 98]
